@@ -760,3 +760,59 @@ def special_members_cover(run, classes, rule='R7', instance='copy-move-covers-fi
                       'the hand-written %s of %s does not transfer %s: the target keeps its previous value of that field (when container elements are shifted by move-assignment the value stays with the slot, not with the element)' % (kind, short, ', '.join(missing)),
                       'writes all %d fields' % len(fields))
     return n
+
+
+# ---------------------------------------------------------------------------
+# thrown exception types vs. the catch clauses meant to contain them
+STD_EXC_BASES = {
+    'std::runtime_error': ['std::exception'], 'std::logic_error': ['std::exception'], 'std::bad_alloc': ['std::exception'],
+    'std::range_error': ['std::runtime_error'], 'std::overflow_error': ['std::runtime_error'], 'std::underflow_error': ['std::runtime_error'],
+    'std::system_error': ['std::runtime_error'], 'boost::system::system_error': ['std::runtime_error'],
+    'std::invalid_argument': ['std::logic_error'], 'std::domain_error': ['std::logic_error'], 'std::length_error': ['std::logic_error'],
+    'std::out_of_range': ['std::logic_error'], 'std::bad_cast': ['std::exception'], 'std::bad_function_call': ['std::exception'],
+}
+
+
+def _exc_derives(t, base):
+    t, base = t.replace('const ', '').replace('&', '').strip(), base.replace('const ', '').replace('&', '').strip()
+    seen, st = set(), [t]
+    while st:
+        x = st.pop()
+        if x == base:
+            return True
+        if x in seen:
+            continue
+        seen.add(x)
+        st.extend(STD_EXC_BASES.get(x, []))
+    return False
+
+
+def throws_are_caught(run, handler, callees, rule='R4', instance='thrown-type-caught'):
+    """Every `throw T(...)` in `callees` (functions the handler's function-try-block runs) has a type that one of the
+    handler's catch clauses accepts (same type, a tabled std base, or catch-all). A throw of a type outside the caught
+    hierarchy escapes the handler - and run() - instead of closing the one connection."""
+    catches = [n for n in handler.all_nodes() if n['k'] == 'catch']
+    caught = []
+    for c in catches:
+        if c.get('all'):
+            caught.append(None)
+        elif c.get('var'):
+            caught.append(handler.types[c['var']['t']])
+    n = 0
+    for g in callees:
+        for t in g.all_nodes():
+            if t['k'] != 'throw' or t.get('e') is None:
+                continue
+            n += 1
+            ty = g.ty(t['e'])
+            ok = any(c is None or _exc_derives(ty, c) for c in caught)
+            known = ty.replace('const ', '').strip() in STD_EXC_BASES or ty.replace('const ', '').strip() == 'std::exception'
+            if ok:
+                run.ok(rule, instance, '%s: throw %s' % (g.norm, ty), g.loc(t), 'accepted by a catch clause of %s' % handler.norm)
+            elif known:
+                run.violation(rule, instance, '%s: throw %s' % (g.norm, ty), g.loc(t),
+                              '%s throws %s, which none of the catch clauses of %s (%s) accepts: the exception escapes the handler and simulation::run() instead of closing this one connection, and no later client is served'
+                              % (g.norm, ty, handler.norm, ', '.join(c or '...' for c in caught) or 'none'))
+            else:
+                run.unrecognised(rule, instance, '%s: throw %s' % (g.norm, ty), g.loc(t), 'thrown type %s is not in the tabled exception hierarchy' % ty)
+    return n
